@@ -407,6 +407,31 @@ Definition csv_load (sep : N) (keys : list (list N)) (text : list N) : outcome (
        | Err e => Err e | Terminate => Terminate | UB => UB | OutOfFuel => OutOfFuel
        end.
 
+(* the same with a request program per row: the object of row i asks for the keys of the i-th program, in that order
+   (any order, repeats, absent names; no program left = no request).  C03 *)
+Fixpoint m_load_hist (fuel : nat) (sep : N) (progs : list (list (list N))) (r : mreader) (acc : list (list (option (list N)))) : outcome (list (list (option (list N)))) :=
+  match fuel with
+  | O => OutOfFuel
+  | S f =>
+    if m_is_end r then Ok acc
+    else match m_parse_next_row true sep r with
+         | Ok (true, r1) =>
+           match m_read_keys r1 (hd [] progs) [] with
+           | Ok (cells, r2) => m_load_hist f sep (tl progs) r2 (acc ++ [cells])
+           | Err e => Err e | Terminate => Terminate | UB => UB | OutOfFuel => OutOfFuel
+           end
+         | Ok (false, r1) => m_load_hist f sep progs r1 (acc ++ [[]])
+         | Err e => Err e | Terminate => Terminate | UB => UB | OutOfFuel => OutOfFuel
+         end
+  end.
+
+Definition csv_load_hist (sep : N) (progs : list (list (list N))) (text : list N) : outcome (list (list (option (list N)))) :=
+  if negb (validate_separator sep) then Err InvalidOptions
+  else match m_new true sep text with
+       | Ok r => m_load_hist (S (length text)) sep progs r []
+       | Err e => Err e | Terminate => Terminate | UB => UB | OutOfFuel => OutOfFuel
+       end.
+
 (* ================= CEncodedStreamReader<char, K>, UTF-8 source ================= *)
 
 Record esr := mkE {
@@ -640,6 +665,29 @@ Fixpoint s_load_rows (fuel : nat) (fuel_line : nat) (sep : N) (keys : list (list
    non-empty chunk from the stream, a line consumes at least one byte *)
 Definition stream_fuel (text : list N) : nat := (2 * length text + 4)%nat.
 
+Fixpoint s_load_hist (fuel : nat) (fuel_line : nat) (sep : N) (progs : list (list (list N))) (s : sreader) (acc : list (list (option (list N)))) : outcome (list (list (option (list N)))) :=
+  match fuel with
+  | O => OutOfFuel
+  | S f =>
+    if s_is_end s then Ok acc
+    else match s_parse_next_row fuel_line true sep s with
+         | Ok (true, s1) =>
+           match s_read_keys s1 (hd [] progs) [] with
+           | Ok (cells, s2) => s_load_hist f fuel_line sep (tl progs) s2 (acc ++ [cells])
+           | Err e => Err e | Terminate => Terminate | UB => UB | OutOfFuel => OutOfFuel
+           end
+         | Ok (false, s1) => s_load_hist f fuel_line sep progs s1 (acc ++ [[]])
+         | Err e => Err e | Terminate => Terminate | UB => UB | OutOfFuel => OutOfFuel
+         end
+  end.
+
+Definition csv_load_src_hist (n : nat) (sep : N) (progs : list (list (list N))) (e0 : E) : outcome (list (list (option (list N)))) :=
+  if negb (validate_separator sep) then Err InvalidOptions
+  else match s_new (2 * n + 4) true sep e0 with
+       | Ok s => s_load_hist (S n) (2 * n + 4) sep progs s []
+       | Err e => Err e | Terminate => Terminate | UB => UB | OutOfFuel => OutOfFuel
+       end.
+
 (* LoadObject over a source that is going to deliver n bytes *)
 Definition csv_load_src (n : nat) (sep : N) (keys : list (list N)) (e0 : E) : outcome (list (list (option (list N)))) :=
   if negb (validate_separator sep) then Err InvalidOptions
@@ -654,11 +702,14 @@ Arguments s_pos {E}. Arguments s_line {E}. Arguments s_rowidx {E}. Arguments s_v
 Arguments s_is_end {E}. Arguments s_scan {E}. Arguments s_parse_next_line {E}. Arguments s_with {E}.
 Arguments s_with_meta {E}. Arguments s_read_next {E}. Arguments s_read_headers {E}. Arguments s_new {E}.
 Arguments s_parse_next_row {E}. Arguments s_read_key {E}. Arguments s_read_keys {E}. Arguments s_load_rows {E}.
-Arguments csv_load_src {E}.
+Arguments csv_load_src {E}. Arguments s_load_hist {E}. Arguments csv_load_src_hist {E}.
 
 (* the UTF-8 stream, chunk size K *)
 Definition csv_load_stream (K : nat) (sep : N) (keys : list (list N)) (text : list N) : outcome (list (list (option (list N)))) :=
   csv_load_src (esr_read_chunk K) esr_is_end (length text) sep keys (esr_new K text).
+
+Definition csv_load_stream_hist (K : nat) (sep : N) (progs : list (list (list N))) (text : list N) : outcome (list (list (option (list N)))) :=
+  csv_load_src_hist (esr_read_chunk K) esr_is_end (length text) sep progs (esr_new K text).
 
 (* an arbitrary list of chunks: ReadChunk hands them out one after the other, then EndFile.  IsEnd becomes true with the
    EndFile answer or - early = true - already with the last chunk (CEncodedStreamReader: when the read that filled its
@@ -672,6 +723,9 @@ Definition chunks_iend (c : list (list N) * bool) : bool := is_nil (fst c) && sn
 
 Definition csv_load_chunks (early : bool) (sep : N) (keys : list (list N)) (chunks : list (list N)) : outcome (list (list (option (list N)))) :=
   csv_load_src (chunks_rd early) chunks_iend (length (concat chunks)) sep keys (chunks, false).
+
+Definition csv_load_chunks_hist (early : bool) (sep : N) (progs : list (list (list N))) (chunks : list (list N)) : outcome (list (list (option (list N)))) :=
+  csv_load_src_hist (chunks_rd early) chunks_iend (length (concat chunks)) sep progs (chunks, false).
 
 (* the library's chunk size (template default of CEncodedStreamReader) *)
 Definition chunk_size : nat := 256.
